@@ -15,7 +15,8 @@ THEOREMS = ["LNN.C05_monotone",
             "LNN.C05_fol_call",
             "LNN.C05_fol_calls",
             "LNN.C05_fol_infer",
-            "LNN.C05_fol_plain"]
+            "LNN.C05_fol_plain",
+            "LNN.C05_fol_restricted"]
 MODULES = ["LnnVerif.Props.C05"]
 FACETS = {"bounds"}
 
